@@ -42,6 +42,10 @@ AS_VARIANTS = [
     {"zoo": "Z12", "wingbox": False},
     {"zoo": "Z12", "wingbox": True},
     {"zoo": "Z15"},
+    # flexible structures (E, G scaled down): slow coupling; without Aitken it may need more than maxiter sweeps, which
+    # has to end in a loud AnalysisError (counted inconclusive), never in a silently unconverged state
+    {"zoo": "Z8", "stiff": 0.12},
+    {"zoo": "Z8", "stiff": 0.08},
 ]
 
 NL_KINDS = ["nlbgs_aitken", "nlbgs", "newton"]
@@ -58,22 +62,29 @@ def apply_solvers(model, nl, lin, atol):
 
     for path in model.coupled:
         g = model.prob.model._get_subsystem(path)
+        shipped = g.nonlinear_solver
         if nl == "nlbgs_aitken":
-            s = om.NonlinearBlockGS(use_aitken=True)
+            s = shipped  # exactly what AerostructPoint.setup configured; only atol is tightened below
         elif nl == "nlbgs":
+            # the shipped configuration with Aitken switched off: every other option is inherited from OAS
             s = om.NonlinearBlockGS(use_aitken=False)
+            for k in ("maxiter", "rtol", "err_on_non_converge"):
+                s.options[k] = shipped.options[k]
         elif nl == "newton":
+            # OAS's own commented variant (NewtonSolver(solve_subsystems=True), maxiter 50); failing loudly is
+            # the user's choice here because OpenMDAO's Newton default is silent
             s = om.NewtonSolver(solve_subsystems=True)
+            s.options["maxiter"] = 50
+            s.options["rtol"] = 1e-30
+            s.options["err_on_non_converge"] = True
         else:
             raise HarnessError("nl %r" % nl)
-        s.options["maxiter"] = 100 if nl != "newton" else 50
         # Newton measures the true residual (K u - f, AIC*gamma - rhs), whose round-off floor is 4e-9..1.3e-8
         # on these models; NLBGS measures the change of the outputs per sweep (floor 2e-10..1.4e-9)
         s.options["atol"] = solver_atol(nl, atol)
-        s.options["rtol"] = 1e-30
         s.options["iprint"] = -1
-        s.options["err_on_non_converge"] = True
-        g.nonlinear_solver = s
+        if s is not shipped:
+            g.nonlinear_solver = s
         if lin == "direct":
             g.linear_solver = om.DirectSolver(assemble_jac=True)
         elif lin == "lbgs":
@@ -449,6 +460,18 @@ def _run(model, res, label, allow_inject=True):
     try:
         with _quiet():
             model.prob.run_model()
+        # a run that returns normally must have met the coupled solver's own criterion: OAS configures the
+        # solver to raise otherwise (err_on_non_converge); stopping at maxiter without saying so hands the
+        # caller a state that is not a fixed point
+        for path in model.coupled:
+            g = model.prob.model._get_subsystem(path)
+            s = g.nonlinear_solver
+            if s._iter_count >= s.options["maxiter"]:
+                norm = float(g._residuals.get_norm())
+                if not (norm <= s.options["atol"]):
+                    res["last_exception"] = {"where": "coupled solver stopped at maxiter=%d with norm %.3g > atol %.3g, no error raised" % (
+                        s.options["maxiter"], norm, s.options["atol"]), "type": "silent", "message": path}
+                    return "silent_nonconv"
         return "ok"
     except om.AnalysisError as e:
         if "verif: injected" in str(e):
@@ -513,7 +536,14 @@ def _exec_schedule(case, res, log, probe, violation, check_state, check_round_tr
     log.add("sched", st, res["sweeps"], dict(sorted(res["fault_fired"].items())))
     if st == "error":
         ex = res.get("last_exception", {})
+        if not case.get("use_aitken", True) and not _plain_nlbgs_converges(spec, point, atol):
+            res["inconclusive"]["plain_nlbgs_not_convergent_here"] = 1
+            return
         violation("exception", ex.get("where", "?"), float("inf"), 0.0, {"message": ex.get("message")})
+        return
+    if st == "silent_nonconv":
+        violation("silent_nonconvergence", "run_model returned normally from a non-converged coupled solve", float("inf"), 0.0,
+                  {"detail": res.get("last_exception", {}).get("where"), "use_aitken": case.get("use_aitken")})
         return
     if st == "nonconv":
         # bounded liveness: once faults stop, the shipped sweep must converge within OAS's own maxiter
@@ -538,6 +568,10 @@ def _exec_schedule(case, res, log, probe, violation, check_state, check_round_tr
         p2 = _to_point(case["then_point"])
         model.set_point(p2)
         st = _run(model, res, "then")
+        if st == "silent_nonconv":
+            violation("silent_nonconvergence", "run_model returned normally from a non-converged coupled solve", float("inf"), 0.0,
+                      {"detail": res.get("last_exception", {}).get("where"), "use_aitken": case.get("use_aitken")})
+            return
         if st != "ok":
             if not case.get("use_aitken", True) and not _plain_nlbgs_converges(spec, p2, atol):
                 res["inconclusive"]["plain_nlbgs_not_convergent_here"] = 1
@@ -614,7 +648,20 @@ def _exec_api(case, res, log, probe, violation, check_state, check_round_trip, r
             log.add("run_model", cur, st, nl, lin)
             if st == "error":
                 ex = res.get("last_exception", {})
+                if nl != "nlbgs_aitken":
+                    # a non-shipped solver that diverges (NaN -> ValueError from lu_factor) fails loudly: the coupling
+                    # is not convergent for that solver here - inconclusive, like its AnalysisError
+                    res["inconclusive"]["diverged_%s" % nl] = res["inconclusive"].get("diverged_%s" % nl, 0) + 1
+                    model = build(nl, lin)
+                    model.set_point(points[cur])
+                    guess_names = faults.cycle_and_state_vars(model)
+                    store.clear()
+                    continue
                 violation("exception", ex.get("where", "?"), float("inf"), 0.0, {"op_index": opi, "nl": nl, "lin": lin, "message": ex.get("message")})
+                return
+            if st == "silent_nonconv":
+                violation("silent_nonconvergence", "run_model returned normally from a non-converged coupled solve", float("inf"), 0.0,
+                          {"op_index": opi, "nl": nl, "lin": lin, "detail": res.get("last_exception", {}).get("where")})
                 return
             if st == "nonconv":
                 if nl == "nlbgs_aitken":
@@ -641,6 +688,12 @@ def _exec_api(case, res, log, probe, violation, check_state, check_round_trip, r
             donor = store.get(op["donor"] % len(points))
             sk = op["kind"] if (op["kind"] != "donor" or donor is not None) else "scale"
             factor = min(op["factor"], 3.0)
+            if spec.get("stiff", 1.0) < 1.0:
+                # very flexible wing: the basin of attraction of the fixed-point iteration is small (15 % entry-wise
+                # noise on the loads makes the shipped solver diverge to NaN at stiff=0.08); keep guesses mild
+                factor = min(max(factor, 0.5), 1.5)
+                if sk == "noise":
+                    factor = 0.1 * factor
             if nl == "newton":
                 # Newton evaluates residuals AT the guess (no clean sweep first), so the guess of the
                 # geometric cycle variables (def_mesh, normals, ...) must itself be a valid mesh
